@@ -583,5 +583,6 @@ pub fn parts() -> Vec<Box<dyn PartDyn>> {
         enumerate: Some(enumerate),
         shrink_budget: 40,
         confirm_runs: 3,
+            fuzz: None,
     })]
 }
